@@ -116,6 +116,8 @@ func newConfig() *refstore.Config {
 	cfg.ATLifetime, cfg.RTLifetime = 6*time.Hour, 12*time.Hour
 	a := cfg.Clients[A]
 	a.Redirects = []string{cbA1, cbA2}
+	// multi-valued response types (part reqobj-rt); B shares the list
+	a.RespTypes = append(append([]oidc.ResponseType{}, a.RespTypes...), "code id_token")
 	for kid, name := range registry[A] {
 		a.Keys[kid] = rig.PubJWK(keys.Get(name), kid)
 	}
@@ -145,6 +147,27 @@ func newRig(requestObjects bool) *rig.Rig {
 	oc.RequestObjectSupported = requestObjects
 	oc.DeviceAuthorization.Lifetime = 6 * time.Hour // the prepared device codes must outlive the largest age
 	return rig.MustNew(rig.Opts{Cfg: newConfig(), OP: oc})
+}
+
+// tolerantProvider is an application's provider whose JWT profile verifier carries a custom
+// SubjectCheck that tolerates every subject (op.SubjectCheck option: delegation). Everything
+// else is the stock op.Provider.
+type tolerantProvider struct{ *op.Provider }
+
+func (p tolerantProvider) JWTProfileVerifier(ctx context.Context) *op.JWTProfileVerifier {
+	return op.NewJWTProfileVerifier(p.Storage(), op.IssuerFromContext(ctx), time.Hour, time.Second,
+		op.SubjectCheck(func(*oidc.JWTTokenRequest) error { return nil }))
+}
+
+// newRigPV: pv "default" = newRig; pv "tolerant" = both routers rebuilt over a tolerantProvider.
+func newRigPV(requestObjects bool, pv string) *rig.Rig {
+	r := newRig(requestObjects)
+	if pv == "tolerant" {
+		tp := tolerantProvider{r.Provider}
+		r.H[0] = op.CreateRouter(tp)
+		r.H[1] = op.RegisterLegacyServer(op.NewLegacyServer(tp, rig.CopyEndpoints()), op.AuthorizeCallbackHandler(tp), op.WithFallbackLogger(rig.Discard))
+	}
+	return r
 }
 
 // ---------------------------------------------------------------------------
@@ -379,7 +402,7 @@ type assertionT struct {
 	extra     string
 	kid       string
 	signer    string
-	subPolicy string // "iss" (default) | "iss-or-u1" (custom check)
+	subPolicy string // "iss" (default) | "iss-or-u1" (custom check) | "any" (custom check tolerating every subject)
 }
 
 func relSeconds(s string) (int64, bool) {
@@ -547,6 +570,7 @@ func judge(a assertionT, tok string, t0, now time.Time, cfg vcfg) (want, string)
 		}
 	}
 	switch a.subPolicy {
+	case "any": // a custom subject check that tolerates every subject (delegation)
 	case "iss-or-u1":
 		if a.sub != a.iss && a.sub != "u1" {
 			return mustReject, "custom-subject-check-fails"
@@ -623,7 +647,7 @@ func TestCheck(t *testing.T) {
 		name string
 		run  func(*testing.T, *engine.Check)
 	}{ // cheapest first: should the deadline strike on a crowded machine, the small parts are complete
-		{"interop", runInterop}, {"history-reqobj", runHistoryReqObj}, {"history-verify", runHistoryVerify}, {"history-endpoint", runHistoryEndpoint},
+		{"interop", runInterop}, {"history-reqobj", runHistoryReqObj}, {"reqobj-rt", runReqObjRT}, {"history-verify", runHistoryVerify}, {"history-endpoint", runHistoryEndpoint},
 		{"reqobj", runReqObj}, {"endpoint", runEndpoint}, {"verify", runVerify}} {
 		t0 := time.Now()
 		p.run(t, c)
